@@ -105,7 +105,8 @@ Parse(b, mode, f) ==
       mofs == IF f.moff = 1 THEN asz \div 8 ELSE 0
       ipos == aft + mofs
       isz  == SumSeq(f.imms, Len(f.imms))
-      total == ipos + isz + f.rel - 1
+      sfxn == IF f.sfx >= 0 THEN 1 ELSE 0                             \* 3DNow!: opcode byte after ModRM/SIB/disp
+      total == ipos + isz + f.rel + sfxn - 1
   IN [np |-> np, pfx |-> pfx, kind |-> kind, rex |-> rex, R |-> R, X |-> X, B |-> B, R2 |-> R2, W |-> W, mm |-> mm,
       vvvv |-> vvvv, pp |-> pp, LL |-> LL, z |-> zz, bb |-> bb, V2 |-> V2, aaa |-> aaa, resv |-> resv, o |-> o, m |-> m,
       lastop |-> lastop, mod |-> mod, reg |-> reg, rm |-> rm, asz |-> asz, a67 |-> a67, sibP |-> sibP, ss |-> ss, idx |-> idx,
@@ -259,6 +260,10 @@ Clause(f, o) ==
                                 THEN (IF p.mod = 3 /\ RegIs(oo, p.rm + 8 * p.B + (IF p.kind = "E" THEN 16 * p.X ELSE 0), p)
                                          /\ (p.kind # "E" => p.X = 0) THEN "" ELSE "rm-field")
                                 ELSE MemClause(fo, oo, p, f, mode)
+          [] fo.fld = "regmem" -> IF oo.t = "m" /\ oo.bt \in {"gpw", "gpd", "gpq"} /\ oo.it = "" /\ HighAll(oo.d, 0, 0) /\ p.reg + 8 * p.R = oo.b /\ p.R2 = 0
+                                  THEN "" ELSE "register-addressed-memory"
+          [] fo.fld = "rmmem"  -> IF oo.t = "m" /\ oo.bt \in {"gpw", "gpd", "gpq"} /\ oo.it = "" /\ HighAll(oo.d, 0, 0) /\ p.mod = 3 /\ p.rm + 8 * p.B = oo.b /\ p.X = 0
+                                  THEN "" ELSE "register-addressed-memory"
           [] fo.fld = "vvvv" -> IF RegIs(oo, p.vvvv + 16 * p.V2, p) THEN "" ELSE "vvvv-field"
           [] fo.fld = "is4"  -> IF is4B >= 0 /\ RegIs(oo, IF mode = 64 THEN is4B \div 16 ELSE (is4B \div 16) % 8, p) THEN "" ELSE "is4-field"
           [] fo.fld = "imm4" -> IF is4B >= 0 /\ IntBytes(is4B % 16, 8) = oo.v THEN "" ELSE "imm4-field"
@@ -285,6 +290,7 @@ Clause(f, o) ==
   ELSE IF mode = 32 /\ vexlike /\ (p.R # 0 \/ p.X # 0 \/ p.R2 # 0 \/ p.V2 # 0 \/ p.vvvv >= 8) THEN "extension-bit-in-32-bit-mode"
   \* opcode bytes
   ELSE IF \E j \in 1..Len(f.opb) : (IF j = Len(f.opb) /\ f.plusr = 1 THEN (At(b, p.o + j - 1) \div 8) * 8 ELSE At(b, p.o + j - 1)) # f.opb[j] THEN "opcode"
+  ELSE IF f.sfx >= 0 /\ At(b, p.total) # f.sfx THEN "opcode-suffix"
   ELSE IF vexlike /\ (p.pp # f.pp \/ p.mm # f.mm) THEN "pp-mm"
   ELSE IF (f.w = 0 /\ p.W # 0) \/ (f.w = 1 /\ p.W # 1) THEN "w-bit"
   ELSE IF vexlike /\ f.l \in {0, 1, 2} /\ ~(p.kind = "E" /\ (erOn \/ saeOn)) /\ p.LL # f.l THEN "vector-length"
@@ -307,7 +313,7 @@ Clause(f, o) ==
   ELSE IF f.modreq = 1 /\ p.mod # 3 THEN "modrm-mod"
   ELSE IF f.modreq = 2 /\ p.mod = 3 THEN "modrm-mod"
   \* unused extension fields must be clear
-  ELSE IF ~hasFld("reg") /\ f.digit < 0 /\ (p.R # 0 \/ p.R2 # 0) THEN "unused-R"
+  ELSE IF ~hasFld("reg") /\ ~hasFld("regmem") /\ f.digit < 0 /\ (p.R # 0 \/ p.R2 # 0) THEN "unused-R"
   ELSE IF f.modrm = 0 /\ (p.X # 0 \/ (p.B # 0 /\ ~hasFld("opr"))) THEN "unused-XB"
   ELSE IF vexlike /\ ~hasFld("vvvv") /\ (p.vvvv # 0 \/ (p.V2 # 0 /\ ~(\E j \in memJ : FO(j).vsib # ""))) THEN "unused-vvvv"
   \* EVEX decorations
@@ -329,7 +335,7 @@ Clause(f, o) ==
   ELSE ""
 
 \* ---------------------------------------------------------------- verdict -----------------------------------
-ClauseOrder == <<"length", "longer-than-15", "prefix-kind", "duplicate-prefix", "evex-reserved-bits", "extension-bit-in-32-bit-mode", "opcode", "pp-mm",
+ClauseOrder == <<"length", "longer-than-15", "prefix-kind", "duplicate-prefix", "evex-reserved-bits", "extension-bit-in-32-bit-mode", "opcode", "opcode-suffix", "pp-mm",
                  "w-bit", "vector-length", "legacy-prefix-before-vex", "prefix-66", "prefix-F2", "prefix-F3", "U-rep-prefix-not-allowed-by-row",
                  "U-hle-prefix-not-allowed-by-row", "prefix-lock", "lock-needs-lockable-memory-destination", "prefix-9B", "prefix-67", "segment-prefix",
                  "modrm-digit", "modrm-rm-fixed", "modrm-mod", "unused-R", "unused-XB", "unused-vvvv", "decoration-without-evex", "evex-aaa", "evex-z",
@@ -353,18 +359,34 @@ OptionsOk(k, o, fit) ==
 
 (* semantically neutral rewritings an assembler may apply: lea r64,[abs unsigned-32] = lea r32,[abs] (zero extension);  *)
 (* ret 0 = ret                                                                                                    *)
-Norm(o) ==
-  IF o.n = "lea" /\ Len(o.ops) = 2 /\ o.ops[1].t = "r" /\ o.ops[1].c = "gpq" /\ o.ops[2].t = "m" /\ o.ops[2].bt = "" /\ o.ops[2].it = ""
-     /\ HighAll(o.ops[2].d, 4, 0) /\ o.ops[2].d[4] >= 128 /\ ~(72 \in {o.b[j] : j \in 1..Len(o.b)} \/ 76 \in {o.b[j] : j \in 1..Len(o.b)})
-  THEN [o EXCEPT !.ops[1].c = "gpd", !.ops[2].d = SExt(Low(o.ops[2].d, 4), 8)]
-  ELSE IF o.n = "lea" /\ o.m = 64 /\ Len(o.ops) = 2 /\ o.ops[1].t = "r" /\ o.ops[1].c \in {"gpw", "gpd"} /\ o.ops[2].t = "m" /\ o.ops[2].bt = "" /\ o.ops[2].it = ""
-          /\ HighAll(o.ops[2].d, 4, 0) /\ o.ops[2].d[4] >= 128
-  THEN [o EXCEPT !.ops[2].d = SExt(Low(o.ops[2].d, 4), 8)]          \* destination <= 32 bits: sign- and zero-extended address give the same result
+(* Each rewriting is a NAMED deviation action: Dev(o) = <<name, rewritten observation>>; the name is reported with the verdict  *)
+(* (<<"DEVIATION", line, name>> in the TLC output, tallied in the evidence), nothing is accepted silently.                       *)
+AbsU32(m) == m.t = "m" /\ m.bt = "" /\ m.it = "" /\ HighAll(m.d, 4, 0) /\ m.d[4] >= 128        \* absolute address in 0x80000000..0xFFFFFFFF
+RexW(o) == LET x == At(o.b, PfxLen(o.b, 1, LegacyPfx) + 1) IN o.m = 64 /\ x >= 72 /\ x <= 79           \* a REX prefix with W = 1
+Dev(o) ==
+  IF o.n = "lea" /\ Len(o.ops) = 2 /\ o.ops[1].t = "r" /\ o.ops[1].c = "gpq" /\ AbsU32(o.ops[2])
+     /\ ~RexW(o)
+  THEN <<"LeaAbsU32AsLea32", [o EXCEPT !.ops[1].c = "gpd", !.ops[2].d = SExt(Low(o.ops[2].d, 4), 8)]>>     \* lea r64,[u32] = lea r32,[disp32]: the 32-bit write zero-extends
+  ELSE IF o.n = "lea" /\ o.m = 64 /\ Len(o.ops) = 2 /\ o.ops[1].t = "r" /\ o.ops[1].c \in {"gpw", "gpd"} /\ AbsU32(o.ops[2])
+  THEN <<"LeaAbsU32SignExtendedAddress", [o EXCEPT !.ops[2].d = SExt(Low(o.ops[2].d, 4), 8)]>>           \* destination <= 32 bits: sign- and zero-extended address give the same result
   ELSE IF o.n = "xchg" /\ o.m = 64 /\ o.b \in {<<144>>, <<64, 144>>} /\ Len(o.ops) = 2 /\ o.ops[1] = o.ops[2] /\ o.ops[1].t = "r" /\ o.ops[1].c = "gpq" /\ o.ops[1].id = 0
-  THEN [o EXCEPT !.ops[1].c = "gpd", !.ops[2].c = "gpd"]               \* xchg rax,rax = nop = 90
+  THEN <<"XchgRaxRaxAsNop", [o EXCEPT !.ops[1].c = "gpd", !.ops[2].c = "gpd"]>>                             \* xchg rax,rax = nop = 90
   ELSE IF o.n \in {"ret", "retf"} /\ Len(o.ops) = 1 /\ o.ops[1].t = "i" /\ HighAll(o.ops[1].v, 0, 0) /\ Len(o.b) = 1
-  THEN [o EXCEPT !.ops = <<>>]
-  ELSE o
+  THEN <<"RetZeroAsRet", [o EXCEPT !.ops = <<>>]>>
+  ELSE IF o.n = "mov" /\ o.m = 64 /\ Len(o.ops) = 2 /\ o.ops[1].t = "r" /\ o.ops[1].c = "gpq" /\ o.ops[2].t = "i" /\ HighAll(o.ops[2].v, 4, 0) /\ ~RexW(o)
+  THEN <<"MovImm64ToImm32", [o EXCEPT !.ops[1].c = "gpd"]>>          \* mov r64,u32 = mov r32,imm32 (B8+r id): the 32-bit write zero-extends
+  ELSE IF o.n = "and" /\ o.m = 64 /\ Len(o.ops) = 2 /\ o.ops[1].t = "r" /\ o.ops[1].c = "gpq" /\ o.ops[2].t = "i" /\ HighAll(o.ops[2].v, 4, 0) /\ ~RexW(o)
+  THEN <<"AndZext32", [o EXCEPT !.ops[1].c = "gpd"]>>                \* and r64,u32 = and r32,imm: the 32-bit write zero-extends, the mask clears the upper half anyway
+  ELSE <<"", o>>
+Norm(o) == Dev(o)[2]
+(* a row of the database that itself states a zero-extending narrowing (and r64, immu32 = 81 /4 id without REX.W) *)
+ZextRow(f) == f.w # 1 /\ (\E j \in 1..Len(f.ops) : f.ops[j].isgn = "u" /\ f.ops[j].ibits = 32) /\ (\E j \in 1..Len(f.ops) : InSeq("gpq", f.ops[j].regs))
+
+(* an unmodelled row can only explain bytes of its own prefix kind: EVEX rows need 62, REX2 rows D5 *)
+FirstOpByte(o) == At(o.b, PfxLen(o.b, 1, LegacyPfx) + 1)
+CouldBe(f, o) == CASE f.pk = "E" -> FirstOpByte(o) = 98
+                   [] f.pk = "U" -> FirstOpByte(o) = 213
+                   [] OTHER -> TRUE
 
 Verdict(o0) ==
   LET o == Norm(o0) IN
@@ -374,9 +396,12 @@ Verdict(o0) ==
            UC  == {"U-evex-z-not-allowed-by-row", "U-evex-mask-not-allowed-by-row", "U-rep-prefix-not-allowed-by-row",
                    "U-hle-prefix-not-allowed-by-row", "U-evex-gather-scatter-needs-a-mask", "U-er-sae-on-a-128-or-256-bit-form",
                    "U-sae-alone-on-a-rounding-capable-form"}
-       IN IF \E k \in okf : Clause(Forms[k], o) = "" /\ OptionsOk(k, o, fit) THEN <<"ok", "", 0>>
+           Hit(k) == Clause(Forms[k], o) = "" /\ OptionsOk(k, o, fit)
+       IN IF \E k \in okf : Hit(k)
+          THEN <<"ok", IF Dev(o0)[1] # "" THEN Dev(o0)[1]
+                       ELSE IF (\E k \in okf : ZextRow(Forms[k])) /\ (\A k \in okf : Hit(k) => ZextRow(Forms[k])) THEN "Zext32RowOfTheDatabase" ELSE "", 0>>
           ELSE IF fit = {} THEN <<"U", "operand-signature-not-in-database", 0>>
-          ELSE IF fit # okf THEN <<"U", "row-kind-not-modelled", 0>>
+          ELSE IF okf = {} \/ \E k \in fit \ okf : CouldBe(Forms[k], o) THEN <<"U", "row-kind-not-modelled", 0>>
           ELSE IF \E k \in okf : Clause(Forms[k], o) \in UC
                THEN <<"U", Clause(Forms[CHOOSE k \in okf : Clause(Forms[k], o) \in UC], o), 0>>      \* bytes fit a row but for a decoration / prefix the row does not allow: C13
           ELSE LET rk(k) == ClauseRank(Clause(Forms[k], o))               \* diagnose against the row that fits furthest
